@@ -37,6 +37,7 @@ type Program struct {
 	allTP     []*types.Package
 	externIfaces []string
 	aimI      *AimInfo
+	theorems  map[string]*Theorem
 	aimOn     func(tag string) bool // aim mode (C07) is used for contracts whose aimcheck tag it accepts
 }
 
@@ -156,6 +157,12 @@ func (P *Program) LoadContracts() error {
 				} else {
 					P.ifaces[path+"."+ic.Name] = ic
 				}
+			}
+			for _, th := range cf.Theorems {
+				if P.theorems == nil {
+					P.theorems = map[string]*Theorem{}
+				}
+				P.theorems[th.Name] = th
 			}
 			for _, g := range cf.Ghosts {
 				if _, dup := P.ghosts[g.Name]; dup {
